@@ -34,7 +34,8 @@ MANIFEST = dict(
          'placements (typestate). The stand-alone wrappers (state-init, tick-tock, currencies, hash update, account status, wallet and NFT data) are checked the same way.'
          ' The parsed message serialises again to the cell it was parsed from, and its state-init to the StateInit cell that was sent.'
          ' The NFT wrappers keep anycast addresses as given (also when the other address is given as text); HighloadWalletData round-trips its old queries.'
-         ' Extra-currency ids cover the whole unsigned 32-bit range (bit 31 set). A header edited after construction (value, grams, extras, fees, bounce, destination) serialises what the object holds now.',
+         ' Extra-currency ids cover the whole unsigned 32-bit range (bit 31 set). A header edited after construction (value, grams, extras, fees, bounce, destination) serialises what the object holds now.'
+         " Wrapper round trips are compared with what the object held before it was serialised (a serialiser that tidies the caller's containers in place does not hide a loss); extra currencies with amount 0 are entries like any other.",
     note='trusted: interpreter, bitarray model, TL-B lowering/decoder, bundled block.tlb (docstring schemas for wallet/NFT types). Addresses with anycast make headers longer than any encoding allows and are outside the enumerated space.',
     design_ref='DESIGN.md section 4 C15')
 
